@@ -14,6 +14,14 @@ import os
 import sys
 import time
 
+try:  # the z3 bindings live in the tooling venv
+    import z3  # noqa: F401
+except ImportError:
+    if os.environ.get("RQV_REEXEC") != "1" and __name__ == "__main__":
+        os.environ["RQV_REEXEC"] = "1"
+        os.execvp("python3-vt", ["python3-vt"] + sys.argv)
+    raise
+
 sys.path.insert(0, os.path.dirname(os.path.abspath(__file__)))
 from rqv import runner  # noqa: E402
 
